@@ -83,6 +83,11 @@ pub fn gen(rng: &mut Rng, _tier: Tier) -> Scn {
             ops.push(TimedOp { when: When::AtUs(rng.range(500_000, 2_500_000)), op: Op::Remove(i) });
         }
     }
+    if rng.chance(0.08) {
+        // set_complete(): the timing of what is queued does not change
+        let when = if rng.chance(0.5) { When::AtUs(0) } else { When::AfterPkt(rng.range(1, 60)) };
+        ops.push(TimedOp { when, op: Op::SetComplete });
+    }
     let gap = match rng.below(5) {
         0 => GapSpec::FixedUs(*rng.pick(&[1u64, 10, 100, 1000])),
         1 => GapSpec::FixedUs(rng.range(1_000, 300_000)),
